@@ -180,10 +180,12 @@ DATASETS = {
     "equal-means-3-6": equal_means(2, [3, 2, 2]),             # totals 7 / 14 over 3 / 6 rankings
     # same-size rankings over different domains (top-k lists): incomplete although all rankings have 2 elements
     "topk": [[{1}, {2}], [{2}, {3}], [{3}, {1}], [{1}, {2}]],
+    "topk-pairs": [[{2}, {4}], [{1}, {4}], [{1, 4}], [{3}, {2}]],
     # a string-typed universe whose cyclic component is made of digit names of different lengths ("8" < "9" < "10" as
     # numbers, "10" < "8" < "9" as strings)
-    "digit-names-mixed-lengths": [[{"a"}, {"8"}, {"9"}, {"10"}, {"b"}], [{"a"}, {"9"}, {"10"}, {"8"}, {"b"}],
-                                  [{"a"}, {"10"}, {"8"}, {"9"}, {"b"}], [{"a"}, {"8"}, {"9"}, {"10"}, {"b"}]],
+    "digit-names-mixed-lengths": [[{"a"}, {"9"}, {"8"}, {"10"}, {"b"}], [{"a"}, {"9", "10"}, {"8"}, {"b"}],
+                                  [{"a"}, {"9"}, {"8"}, {"10"}, {"b"}], [{"a"}, {"9", "10", "8"}, {"b"}],
+                                  [{"a"}, {"8"}, {"9", "10"}, {"b"}]],
     "tie3": [[{1, 2}, {3}], [{1, 2}, {3}], [{2}, {1}, {3}]],
     "single": [[{7}], [{7}]],
     "five-cycle-ties": [[{1}, {2}, {3}, {4}, {5}], [{3, 4}, {5}, {1}, {2}], [{5}, {1, 2, 3}], [{2}, {4}], [{4}, {5}, {3}, {2}, {1}]],
